@@ -14,6 +14,7 @@ import (
 	"os"
 	"os/exec"
 	"path/filepath"
+	"sort"
 	"strings"
 	"testing"
 	"time"
@@ -34,9 +35,11 @@ func TestVerifSim(t *testing.T) {
 }
 
 type starter struct {
-	cfg     Config
-	marker  string // value of the child marker in the process's environment when it was created
-	tainted bool   // the process is a telemetry child or a descendant of one
+	cfg        Config
+	marker     string // value of the child marker in the process's environment when it was created
+	tainted    bool   // the process is a telemetry child or a descendant of one
+	viaMaybe   bool   // the program calls MaybeChild before Start
+	appReached bool   // MaybeChild returned
 }
 
 func dirHash(dir string) map[string][32]byte {
@@ -155,6 +158,11 @@ func scenarioStart(c *hlib.RunCtx) *hlib.Violation {
 	runStart := func(p *simrt.Proc) {
 		st := info[p]
 		s.Spawn(p, p.Name, func() {
+			if st.viaMaybe {
+				// the documented entry for programs that cannot call Start first
+				MaybeChild(st.cfg)
+				st.appReached = true
+			}
 			res := Start(st.cfg)
 			res.Wait()
 		})
@@ -167,6 +175,7 @@ func scenarioStart(c *hlib.RunCtx) *hlib.Violation {
 		}
 		isTelemetryChild := len(child.Args) == 2 && child.Args[1] == "** telemetry **"
 		cst := &starter{cfg: pst.cfg, marker: child.Env[telemetryChildVar], tainted: pst.tainted || isTelemetryChild || child.Env[telemetryChildVar] != ""}
+		cst.viaMaybe = t.Bool(1, 3)
 		info[child] = cst
 		if isTelemetryChild {
 			child.Name = "sidecar"
@@ -244,8 +253,9 @@ func scenarioStart(c *hlib.RunCtx) *hlib.Violation {
 			}
 		}
 		st := &starter{cfg: Config{ReportCrashes: t.Bool(1, 2), Upload: t.Bool(2, 3), TelemetryDir: tele, UploadURL: "http://telemetry.sim/upload"}, marker: marker, tainted: marker != ""}
+		st.viaMaybe = t.Bool(1, 3)
 		info[p] = st
-		desc = append(desc, fmt.Sprintf("app%d marker=%q crash=%v upload=%v", i, marker, st.cfg.ReportCrashes, st.cfg.Upload))
+		desc = append(desc, fmt.Sprintf("app%d marker=%q crash=%v upload=%v maybechild=%v", i, marker, st.cfg.ReportCrashes, st.cfg.Upload, st.viaMaybe))
 		runStart(p)
 		// some starters begin later
 		if family != "within24h" && t.Bool(1, 4) {
@@ -279,6 +289,22 @@ func scenarioStart(c *hlib.RunCtx) *hlib.Violation {
 	}
 	if viol != nil {
 		return viol
+	}
+	// only a process marked "1" takes the sidecar's role: any other one that
+	// enters through MaybeChild comes back out of it and goes on as the application.
+	var procs []*simrt.Proc
+	for p := range info {
+		procs = append(procs, p)
+	}
+	sort.Slice(procs, func(i, j int) bool { return procs[i].ID < procs[j].ID })
+	for _, p := range procs {
+		st := info[p]
+		if st.viaMaybe && st.marker != "1" && !st.appReached {
+			fail("sidecar-role", "process %d (%s) started with marker %q, entered through MaybeChild and never returned from it: it ran as a telemetry child", p.ID, p.Name, st.marker)
+		}
+		if st.viaMaybe && st.marker != "1" {
+			s.Probe("maybechild-marker-" + map[bool]string{true: "set", false: "unset"}[st.marker != ""])
+		}
 	}
 	// a telemetry child rewrites its marker to 2
 	for _, ch := range spawnedTelemetry {
